@@ -1,2 +1,101 @@
-(* placeholder while the correspondence is being established *)
-From Cfg Require Import Model.MapSub Harness.C22.
+(* C22 Map subscriptions converge to the broker state.
+   Property theorems only; proofs in Proofs/MapSub*.v.
+
+   System = model of the in-memory map broker (log of changes, StreamSize
+   trimming, stream expiry, clear = new epoch, key-cursor state pagination) +
+   the server side of the map subscription protocol (frozen first-page offset,
+   revision filter, state->live shortcut, stream pages with captured stream
+   start, live transition with buffered publications merged by C39's model,
+   recovery join, live broadcast position checks, periodic position check) +
+   a reference client following the protocol.  A schedule is any list of events:
+   writer operations (publish / remove or key expiry / stream expiry / clear),
+   client requests with further writer operations inside the three windows of
+   the request (after the state read, between hub subscription and the stream
+   read, after the stream read), position checks and client drops.
+   [fx = true] is the trim detection of repo commit 86b6310c (the tree); the
+   pre-fix rule is [fx = false]. *)
+From Coq Require Import List Arith Bool NArith.
+From Cfg Require Import Model.Merge Model.MapSub Proofs.MapSubLib Proofs.MapSub Proofs.MapSubInv
+     Proofs.MapSubFinal.
+Import ListNotations.
+Close Scope N_scope.
+Open Scope nat_scope.
+
+(* For ALL schedules (keys below K, page size >= 1), all page sizes, stream sizes,
+   transition limits and key-stable tags filters: whenever the subscription is
+   live and its position matches the broker (what a position check enforces),
+   the client holds exactly the broker's current state restricted to the keys
+   its filter admits.  Otherwise the client has been told (error reply,
+   insufficient-state disconnect or unsubscribe) and is not live. *)
+Theorem C22_converge : forall K vis tlimit size limit evs,
+  1 <= limit -> Forall (evok K) evs ->
+  let y := run true K vis tlimit (init size limit) evs in
+  quiescent y ->
+  forall k, c_map (y_c y) k = if vis k then vof (state (y_b y)) k else None.
+Proof. exact converge_fixed. Qed.
+Print Assumptions C22_converge.
+
+(* after a position check a subscription that is still live is quiescent *)
+Theorem C22_check_quiesces : forall fx K vis tlimit y,
+  l_sub (y_l (step fx K vis tlimit y EvCheck)) = true -> quiescent (step fx K vis tlimit y EvCheck).
+Proof. exact check_quiesces. Qed.
+Print Assumptions C22_check_quiesces.
+
+(* the knowledge invariant is preserved by every event (the induction behind C22_converge) *)
+Theorem C22_invariant : forall K vis tlimit y ev,
+  Know K vis y -> evok K ev -> Know K vis (step true K vis tlimit y ev).
+Proof. exact know_step. Qed.
+Print Assumptions C22_invariant.
+
+(* never "recovered" with a missed change: a reply carrying recovered = true
+   delivers exactly the visible changes after the position the client gave, up
+   to the position it is given *)
+Theorem C22_no_false_recovered : forall K vis tlimit y g0 g1 g2 y' es pubs off ep,
+  Know K vis y -> Forall (wok K) g0 -> Forall (wok K) g1 -> Forall (wok K) g2 ->
+  step_out true K vis tlimit y (EvReq g0 g1 g2) = (y', OReply (PLive es pubs off ep true)) ->
+  c_ep (y_c y) = Some ep /\
+  (ep = b_epoch (y_b y') ->
+     off = top (y_b y') /\ pubs = vis_pubs vis (changes (y_b y') (c_off (y_c y)) off)).
+Proof. exact recovered_sound. Qed.
+Print Assumptions C22_no_false_recovered.
+
+(* an accepted stream read is the exact continuation of the given position *)
+Theorem C22_stream_read_exact : forall b since ep limit pubs t e,
+  WF b -> since <= top b -> 1 <= limit -> known since ep = true ->
+  node_read_stream true b since ep limit = SOk pubs t e ->
+  t = top b /\ e = b_epoch b /\ pubs = firstn limit (changes b since (top b)) /\
+  (forall x, ep = Some x -> x = b_epoch b).
+Proof. exact node_read_fixed. Qed.
+Print Assumptions C22_stream_read_exact.
+
+(* The pre-fix trim detection (fx = false) violates the property: two schedules
+   end live, position check passed, "recovered = true" received, with a map
+   different from the broker's state. *)
+Theorem C22_converge_prefix_refuted_trimmed_from_zero :
+  Forall (evok 6) w_trim0 /\
+  let y := run false 6 all_vis 1000 (init 2 3) w_trim0 in
+  qb y = true /\ c_recovered (y_c y) = [false; true] /\
+  c_map (y_c y) 0 = None /\ vof (state (y_b y)) 0 = Some 1%N.
+Proof. split; [exact (proj1 w_ok)|exact refute_trim0]. Qed.
+Print Assumptions C22_converge_prefix_refuted_trimmed_from_zero.
+
+Theorem C22_converge_prefix_refuted_expired_stream :
+  Forall (evok 6) w_expired /\
+  let y := run false 6 all_vis 1000 (init 100 3) w_expired in
+  qb y = true /\ c_recovered (y_c y) = [false; true] /\
+  c_map (y_c y) 0 = Some 1%N /\ vof (state (y_b y)) 0 = Some 3%N /\
+  c_map (y_c y) 1 = None /\ vof (state (y_b y)) 1 = Some 2%N.
+Proof. split; [exact (proj2 w_ok)|exact refute_expired]. Qed.
+Print Assumptions C22_converge_prefix_refuted_expired_stream.
+
+(* non-vacuity: with the fix the same schedules end with the client told, and a
+   plain schedule ends quiescent *)
+Example C22_fixed_trim0_told : qb (run true 6 all_vis 1000 (init 2 3) w_trim0) = false.
+Proof. exact fixed_trim0. Qed.
+Example C22_fixed_expired_told : qb (run true 6 all_vis 1000 (init 100 3) w_expired) = false.
+Proof. exact fixed_expired. Qed.
+Example C22_quiescent_reachable :
+  qb (run true 6 all_vis 1000 (init 2 1)
+        [EvW (WPub 0 1%N); EvW (WPub 1 2%N); EvW (WPub 2 3%N); EvReq [] [] []; EvW (WPub 0 4%N);
+         EvReq [] [WPub 3 5%N] []; EvReq [] [] []; EvReq [] [] []; EvReq [] [] []; EvCheck]) = true.
+Proof. vm_compute. reflexivity. Qed.
